@@ -121,6 +121,32 @@ static void runCase(const Case &cs, std::ostream &out) {
 			if (sb) rep("isSubsetOf", forAll([&]{ return !ev.val(rb) || ev.val(ra); }));
 			if (cb || cb2) rep("cannotBothBeTrue", forAll([&]{ return !(ev.val(ra) && ev.val(rb)); }));
 		}
+	// term-set operations used by retiming (suggestForwardRetimingEnableCondition, hazard logic): tie + truth table
+	auto litsTrue = [&](const Conjunction &c) { bool v = true; for (const auto &p : c.getTerms().anyOrder()) v = v && (ev.val(p.second.driver) != p.second.negated); return v; };
+	for (size_t i = 0; i < cs.roots.size(); i++)
+		for (size_t j = 0; j < cs.roots.size(); j++) {
+			const auto &a = conj[i], &b = conj[j];
+			Conjunction x = a; x.intersectTermsWith(b);
+			out << "I " << cs.id << " " << cs.roots[i] << " " << cs.roots[j] << " " << termsStr(x, idx) << "\n";
+			// the common terms are implied by a's terms and by b's terms
+			if (doSem) {
+				auto r1 = forAll([&]{ return !litsTrue(a) || litsTrue(x); });
+				if (!r1.first) out << "SEMFAIL " << cs.id << " intersectTermsWith(a) roots " << cs.roots[i] << " " << cs.roots[j] << " assign " << r1.second.first << " unconnected " << r1.second.second << "\n";
+				auto r2 = forAll([&]{ return !litsTrue(b) || litsTrue(x); });
+				if (!r2.first) out << "SEMFAIL " << cs.id << " intersectTermsWith(b) roots " << cs.roots[i] << " " << cs.roots[j] << " assign " << r2.second.first << " unconnected " << r2.second.second << "\n";
+			}
+			// removeTerms requires b's terms to be a subset of a's (same polarity): asserted by the implementation
+			bool pre = true;
+			for (const auto &p : b.getTerms().anyOrder()) { auto it = a.getTerms().find(p.second.driver); if (it == a.getTerms().end() || it->second.negated != p.second.negated) pre = false; }
+			if (pre) {
+				Conjunction y = a; y.removeTerms(b);
+				out << "R " << cs.id << " " << cs.roots[i] << " " << cs.roots[j] << " " << termsStr(y, idx) << "\n";
+				if (doSem) {
+					auto r3 = forAll([&]{ return litsTrue(a) == (litsTrue(y) && litsTrue(b)); });
+					if (!r3.first) out << "SEMFAIL " << cs.id << " removeTerms roots " << cs.roots[i] << " " << cs.roots[j] << " assign " << r3.second.first << " unconnected " << r3.second.second << "\n";
+				}
+			} else out << "R " << cs.id << " " << cs.roots[i] << " " << cs.roots[j] << " pre0\n";
+		}
 	// parse itself against the truth table: value(root) == !contra && AND(literals)
 	if (doSem)
 		for (size_t i = 0; i < cs.roots.size(); i++) {
